@@ -84,6 +84,11 @@ class Run:
             return {"_failed": True, "_stderr": p.stderr, "_stdout": p.stdout, "cases": 0, "counters": {}}
         if p.returncode != 0 or summary is None:
             raise Infra("harness %s failed (rc=%s):\n%s\n%s" % (driver, p.returncode, p.stdout[-3000:], p.stderr[-3000:]))
+        if summary.get("counters", {}).get("hook_missing_runs"):
+            # the instrumentation lines are gone from the code under test: entities cannot be bound to rows, and
+            # judging the clauses that need the binding would blame the code for our blindness
+            raise Infra("a hook (static.accept / journal.feed) did not fire in %d runs that did produce results: the instrumentation "
+                        "(build tag verif, MANIFEST.hooks) is missing from the tree under test" % summary["counters"]["hook_missing_runs"])
         for c in summary.get("crashes", []):
             self.crashes.append(c)
         for k, v in summary.get("counters", {}).items():
